@@ -497,6 +497,26 @@ Proof.
   eapply remove_index_entry_at_incl; eassumption.
 Qed.
 
+Lemma prim_insert_entry_at_Mid : forall st s p pos k, Mid st -> Mid (prim_insert_entry_at st s p pos k).
+Proof.
+  intros st s p pos k [M H6]. unfold prim_insert_entry_at.
+  destruct (own s p && has_node (st_tree st) p && mem k (kids_of (st_tree st) p)
+            && negb (mem k (index_at (st_tree st) p)) && (pos <=? length (index_at (st_tree st) p))) eqn:Eg; [|split; assumption].
+  apply andb_true_iff in Eg. destruct Eg as [Eg Epos]. apply andb_true_iff in Eg. destruct Eg as [Eg Enot].
+  apply andb_true_iff in Eg. destruct Eg as [Eg Ek]. apply andb_true_iff in Eg. destruct Eg as [Ho Eh].
+  destruct (has_node_lookup _ _ Eh) as [n Hl]. rewrite (node_at_lookup _ _ _ Hl).
+  rewrite (index_at_lookup _ _ _ Hl) in Enot, Epos.
+  destruct (insert_index_entry_at (kids_of (st_tree st) p) n pos k) as [n' ops] eqn:Ei.
+  assert (Hnot : ~ In k (index_of n)) by (apply mem_false; apply negb_true_iff; exact Enot).
+  destruct (insert_index_entry_at_spec _ _ _ _ _ _ (proj2 (mA_twf st M) p n Hl) Hnot Ei) as (W & R & _).
+  assert (Fit : ops_fit ops (index_of n) = true) by (eapply insert_index_entry_at_fits; [apply Nat.leb_le; exact Epos | exact Ei]).
+  split.
+  - apply MidA_set_ipres. eapply put_idx_MidA; eassumption.
+  - apply I6_set_ipres. intros s' Hne. apply (J_other st _ s s' p); [reflexivity | exact Ho | exact Hne | | apply H6].
+    intros q Hq. simpl. rewrite (index_at_set_node _ _ n) by exact Hl.
+    replace (path_eqb p q) with false; [reflexivity|]. symmetry. apply path_eqb_neq. congruence.
+Qed.
+
 Lemma add_node_Mid : forall st q, Mid st -> Mid (with_tree st (add_node (st_tree st) q)).
 Proof.
   intros st q [M H6]. split.
@@ -973,6 +993,7 @@ Proof.
   - apply clone_Mid; assumption.
   - destruct (has_node (st_tree st) src); [apply restore_Mid|]; exact HM.
   - apply prim_remove_entry_at_Mid; exact HM.
+  - apply prim_insert_entry_at_Mid; exact HM.
   - apply remove_child_rec_Mid; exact HM.
   - exact HM.
 Qed.
